@@ -81,7 +81,10 @@ Definition size_cell (o : option N) : bytes := match o with Some n => dec n | No
 (* detail_list_entries: columns "Raw Size", "Compressed Size" *)
 Definition table_size_cells (t : trow) : bytes * bytes := (size_cell (r_size (t_row t)), dec (t_csize t)).
 (* json_line_entries: fields "raw_size", "size" *)
-Definition jsonl_size_fields (t : trow) : N * N :=
+(* raw_size is an Option since repo 09617fb8 (list.rs FileInfo.raw_size: Option): `null` when the entry records no size (it used to print 0 there,
+   kept as jsonl_size_fields_orig) *)
+Definition jsonl_size_fields (t : trow) : option N * N := (r_size (t_row t), t_csize t).
+Definition jsonl_size_fields_orig (t : trow) : N * N :=
   (match r_size (t_row t) with Some n => n | None => 0 end, t_csize t).
 
 (* ================================================================================================= *)
@@ -541,7 +544,7 @@ Definition ls_arch : bytes :=
   write_archive_entries [RNormal (ls_build ls_j1); RSolid ls_block; RNormal (ls_build ls_j2); RNormal (ls_build ls_j3); RNormal (ls_build ls_j4)].
 Definition ls_rd (e : normal_entry) : res bytes := decode_normal toy_E_of toy_D_of id_decompress toy_verify e ls_pw (repeat 64 100).
 Definition ls_expand (p : bytes) := expand_p toy_E_of toy_D_of id_decompress toy_verify p (fun _ => repeat 64 1000).
-Definition ls_list (p : bytes) (solid : bool) : res (list (bytes * (N * N) * (bytes * bytes))) :=
+Definition ls_list (p : bytes) (solid : bool) : res (list (bytes * (option N * N) * (bytes * bytes))) :=
   do es <- read_archive ls_arch;
   do rows <- list_trows ls_rd (ls_expand p) solid 0 (fun _ => false) es;
   Ok (map (fun t => (r_name (t_row t), jsonl_size_fields t, table_size_cells t)) rows).
@@ -551,12 +554,12 @@ Definition ls_list (p : bytes) (solid : bool) : res (list (bytes * (N * N) * (by
    be opened, the command fails, nothing is printed *)
 Example ls_listing :
   ls_list ls_pw true = Ok
-    [(lit "a.txt", (10, 10), (lit "10", lit "10")); (lit "s/in", (7, 7), (lit "7", lit "7"));
-     (lit "s/enc", (5, 21), (lit "5", lit "21")); (lit "b.bin", (20, 48), (lit "20", lit "48"));
-     (lit "l", (0, 5), (lit "-", lit "5")); (lit "d", (0, 0), (lit "-", lit "0"))] /\
+    [(lit "a.txt", (Some 10, 10), (lit "10", lit "10")); (lit "s/in", (Some 7, 7), (lit "7", lit "7"));
+     (lit "s/enc", (Some 5, 21), (lit "5", lit "21")); (lit "b.bin", (Some 20, 48), (lit "20", lit "48"));
+     (lit "l", (None, 5), (lit "-", lit "5")); (lit "d", (None, 0), (lit "-", lit "0"))] /\
   ls_list ls_pw false = Ok
-    [(lit "a.txt", (10, 10), (lit "10", lit "10")); (lit "b.bin", (20, 48), (lit "20", lit "48"));
-     (lit "l", (0, 5), (lit "-", lit "5")); (lit "d", (0, 0), (lit "-", lit "0"))] /\
+    [(lit "a.txt", (Some 10, 10), (lit "10", lit "10")); (lit "b.bin", (Some 20, 48), (lit "20", lit "48"));
+     (lit "l", (None, 5), (lit "-", lit "5")); (lit "d", (None, 0), (lit "-", lit "0"))] /\
   ls_list (lit "no") false = ls_list ls_pw false /\
   ls_list (lit "no") true = Err InvalidData.
 Proof. vm_compute. repeat split. Qed.
